@@ -71,7 +71,7 @@ pub struct Dc {
 impl Dc {
     fn new(key: usize) -> Dc {
         let id = NEXT.fetch_add(1, SeqCst);
-        if let Some(r) = REG.lock().unwrap().as_mut() {
+        if let Some(r) = REG.lock().unwrap_or_else(|e| e.into_inner()).as_mut() {
             r.insert(id, Info { key, ctx: ctx_name(), drops: 0 });
         }
         call("cls.init", id, key as u64);
@@ -81,7 +81,7 @@ impl Dc {
 impl Drop for Dc {
     fn drop(&mut self) {
         call("cls.drop", self.id, self.key as u64);
-        if let Some(r) = REG.lock().unwrap().as_mut() {
+        if let Some(r) = REG.lock().unwrap_or_else(|e| e.into_inner()).as_mut() {
             if let Some(i) = r.get_mut(&self.id) {
                 i.drops += 1;
             }
@@ -112,23 +112,23 @@ fn access(k: usize, seen: &mut HashMap<usize, (u64, u64)>, fails: &StdMutex<Vec<
     match seen.get(&k) {
         None => {
             if val != 0 {
-                fails.lock().unwrap().push(format!("cls-private: {who} found key {k} already written ({val}) at its first access (value id {id})"));
+                fails.lock().unwrap_or_else(|e| e.into_inner()).push(format!("cls-private: {who} found key {k} already written ({val}) at its first access (value id {id})"));
             }
         }
         Some((id0, v0)) => {
             if *id0 != id || *v0 + 1 != val {
-                fails.lock().unwrap().push(format!("cls-stable: {who} key {k}: value id {id0}/payload {} became id {id}/payload {val}", v0 + 1));
+                fails.lock().unwrap_or_else(|e| e.into_inner()).push(format!("cls-stable: {who} key {k}: value id {id0}/payload {} became id {id}/payload {val}", v0 + 1));
             }
         }
     }
     seen.insert(k, (id, val));
-    if let Some(r) = REG.lock().unwrap().as_ref() {
+    if let Some(r) = REG.lock().unwrap_or_else(|e| e.into_inner()).as_ref() {
         if let Some(i) = r.get(&id) {
             if i.drops != 0 {
-                fails.lock().unwrap().push(format!("cls-dropped-early: {who} accesses value {id} of key {k} after it was dropped"));
+                fails.lock().unwrap_or_else(|e| e.into_inner()).push(format!("cls-dropped-early: {who} accesses value {id} of key {k} after it was dropped"));
             }
             if i.ctx != who && !i.ctx.ends_with(who) {
-                fails.lock().unwrap().push(format!("cls-private: {who} sees value {id} of key {k} that was created by {}", i.ctx));
+                fails.lock().unwrap_or_else(|e| e.into_inner()).push(format!("cls-private: {who} sees value {id} of key {k} that was created by {}", i.ctx));
             }
         }
     }
@@ -215,7 +215,7 @@ fn cls_coroutine(name: String, ops: Vec<Op>, end: End, sh: Arc<Sh>, parked: Arc<
         coroutine::Builder::new()
             .name(name)
             .spawn(move || {
-                GRAVE.lock().unwrap().push(coroutine::current());
+                GRAVE.lock().unwrap_or_else(|e| e.into_inner()).push(coroutine::current());
                 let who = format!("c:{n2}");
                 call("co.start", 0, 0);
                 let mut seen = HashMap::new();
@@ -249,11 +249,11 @@ fn cls_coroutine(name: String, ops: Vec<Op>, end: End, sh: Arc<Sh>, parked: Arc<
 }
 
 fn run(spec: Spec) -> Vec<String> {
-    *REG.lock().unwrap() = Some(HashMap::new());
-    STACKS.lock().unwrap().clear();
-    GRAVE.lock().unwrap().clear();
+    *REG.lock().unwrap_or_else(|e| e.into_inner()) = Some(HashMap::new());
+    STACKS.lock().unwrap_or_else(|e| e.into_inner()).clear();
+    GRAVE.lock().unwrap_or_else(|e| e.into_inner()).clear();
     let sh = Arc::new(Sh { fails: StdMutex::new(vec![]) });
-    let fail = |s: String| sh.fails.lock().unwrap().push(s);
+    let fail = |s: String| sh.fails.lock().unwrap_or_else(|e| e.into_inner()).push(s);
     // ------------------------------------------------------------------ part 1: CLS
     let mut hs = vec![];
     for (i, (ops, end)) in spec.cos.iter().enumerate() {
@@ -290,7 +290,7 @@ fn run(spec: Spec) -> Vec<String> {
         }
         let co = h.coroutine().clone();
         let r = h.join();
-        GRAVE.lock().unwrap().push(co);
+        GRAVE.lock().unwrap_or_else(|e| e.into_inner()).push(co);
         match (end, r) {
             (End::Normal, Ok(ids)) => accessed.push((i, ids, end)),
             (End::Normal, Err(_)) => fail(format!("c{i} panicked")),
@@ -308,10 +308,10 @@ fn run(spec: Spec) -> Vec<String> {
         let pred_ids = Arc::new(StdMutex::new(vec![]));
         let (pi2, sh2) = (pred_ids.clone(), sh.clone());
         let body = move |who: String| {
-            STACKS.lock().unwrap().push(stack_page());
+            STACKS.lock().unwrap_or_else(|e| e.into_inner()).push(stack_page());
             let mut seen = HashMap::new();
             let id = access(pi % 3, &mut seen, &sh2.fails, &who);
-            pi2.lock().unwrap().push(id);
+            pi2.lock().unwrap_or_else(|e| e.into_inner()).push(id);
         };
         match pred {
             Pred::SelArm => {
@@ -320,7 +320,7 @@ fn run(spec: Spec) -> Vec<String> {
                 cqueue::scope(|cq| {
                     let b2 = body.clone();
                     let s = go!(cq, 0, move |es| {
-                        GRAVE.lock().unwrap().push(coroutine::current());
+                        GRAVE.lock().unwrap_or_else(|e| e.into_inner()).push(coroutine::current());
                         b2(ctx_name());
                         coroutine::yield_now();
                         es.send(0);
@@ -340,7 +340,7 @@ fn run(spec: Spec) -> Vec<String> {
                     coroutine::Builder::new()
                         .name(pname.clone())
                         .spawn(move || {
-                            GRAVE.lock().unwrap().push(coroutine::current());
+                            GRAVE.lock().unwrap_or_else(|e| e.into_inner()).push(coroutine::current());
                             call("co.start", 0, 0);
                             b2(format!("c:{pn2}"));
                             match pred2 {
@@ -385,36 +385,36 @@ fn run(spec: Spec) -> Vec<String> {
                 }
                 let co = h.coroutine().clone();
                 let _ = h.join();
-                GRAVE.lock().unwrap().push(co);
+                GRAVE.lock().unwrap_or_else(|e| e.into_inner()).push(co);
             }
         }
         // the predecessor's stack goes back to the pool a moment after its join was triggered
         std::thread::sleep(Duration::from_micros(300));
-        let pred_ids: Vec<u64> = pred_ids.lock().unwrap().clone();
-        let pred_stacks: Vec<usize> = STACKS.lock().unwrap().clone();
+        let pred_ids: Vec<u64> = pred_ids.lock().unwrap_or_else(|e| e.into_inner()).clone();
+        let pred_stacks: Vec<usize> = STACKS.lock().unwrap_or_else(|e| e.into_inner()).clone();
         let lock = Arc::new(Mutex::new(0u32));
         for (fi, first) in firsts.iter().enumerate() {
             let fname = format!("f{}{}", pi + 1, fi + 1);
             let blk: Arc<StdMutex<Option<Arc<Blocker>>>> = Arc::new(StdMutex::new(None));
             let (blk2, first2, fn2, sh2, lock2, ps2, pids2) = (blk.clone(), *first, fname.clone(), sh.clone(), lock.clone(), pred_stacks.clone(), pred_ids.clone());
-            let guard = if *first == First::Lock { Some(lock.lock().unwrap()) } else { None };
+            let guard = if *first == First::Lock { Some(lock.lock().unwrap_or_else(|e| e.into_inner())) } else { None };
             let h = unsafe {
                 coroutine::Builder::new()
                     .name(fname.clone())
                     .spawn(move || {
-                        GRAVE.lock().unwrap().push(coroutine::current());
+                        GRAVE.lock().unwrap_or_else(|e| e.into_inner()).push(coroutine::current());
                         let who = format!("c:{fn2}");
                         call("co.start", 0, 0);
                         if ps2.contains(&stack_page()) {
                             call("stack.reuse", 0, 0);
                         }
-                        let bad = |s: String| sh2.fails.lock().unwrap().push(s);
+                        let bad = |s: String| sh2.fails.lock().unwrap_or_else(|e| e.into_inner()).push(s);
                         match first2 {
                             First::ParkUnparked | First::ParkTimeout => {
                                 let unp = first2 == First::ParkUnparked;
                                 call("first.park", unp as u64, 0);
                                 let b = Blocker::current();
-                                *blk2.lock().unwrap() = Some(b.clone());
+                                *blk2.lock().unwrap_or_else(|e| e.into_inner()) = Some(b.clone());
                                 let d = if unp { Duration::from_secs(5) } else { Duration::from_millis(1) };
                                 let r = b.park(Some(d));
                                 let code = match r {
@@ -463,7 +463,7 @@ fn run(spec: Spec) -> Vec<String> {
                     // unpark as soon as the blocker exists
                     let t0 = Instant::now();
                     loop {
-                        if let Some(b) = blk.lock().unwrap().as_ref() {
+                        if let Some(b) = blk.lock().unwrap_or_else(|e| e.into_inner()).as_ref() {
                             b.unpark();
                             break;
                         }
@@ -485,7 +485,7 @@ fn run(spec: Spec) -> Vec<String> {
                 let what = e.downcast_ref::<String>().cloned().or(e.downcast_ref::<&str>().map(|s| s.to_string())).unwrap_or_else(|| "a Cancel panic (non-string payload)".into());
                 fail(format!("fresh-panic: the fresh coroutine {fname} saw a cancellation or error nobody requested: first action {first:?} after a predecessor that {pred:?} ended with {what}"));
             }
-            GRAVE.lock().unwrap().push(co);
+            GRAVE.lock().unwrap_or_else(|e| e.into_inner()).push(co);
         }
     }
     // ------------------------------------------------------------------ part 3: time-out / unpark race, then probes
@@ -497,9 +497,9 @@ fn run(spec: Spec) -> Vec<String> {
                 coroutine::Builder::new()
                     .name(format!("s{}", i + 1))
                     .spawn(move || {
-                        GRAVE.lock().unwrap().push(coroutine::current());
+                        GRAVE.lock().unwrap_or_else(|e| e.into_inner()).push(coroutine::current());
                         call("co.start", 0, 0);
-                        STACKS.lock().unwrap().push(stack_page());
+                        STACKS.lock().unwrap_or_else(|e| e.into_inner()).push(stack_page());
                         call("sweep.park", ms, 0);
                         coroutine::park_timeout(Duration::from_millis(ms));
                         ret("sweep.park", 0);
@@ -521,10 +521,10 @@ fn run(spec: Spec) -> Vec<String> {
             if h.join().is_err() {
                 fail("a sweep coroutine panicked".into());
             }
-            GRAVE.lock().unwrap().push(co);
+            GRAVE.lock().unwrap_or_else(|e| e.into_inner()).push(co);
         }
         std::thread::sleep(Duration::from_micros(300));
-        let stacks: Vec<usize> = STACKS.lock().unwrap().clone();
+        let stacks: Vec<usize> = STACKS.lock().unwrap_or_else(|e| e.into_inner()).clone();
         let probe = Arc::new(UdpSocket::bind("127.0.0.1:0").unwrap());
         let addr = probe.local_addr().unwrap();
         let sender = std::net::UdpSocket::bind("127.0.0.1:0").unwrap();
@@ -539,13 +539,13 @@ fn run(spec: Spec) -> Vec<String> {
                 coroutine::Builder::new()
                     .name(qname.clone())
                     .spawn(move || {
-                        GRAVE.lock().unwrap().push(coroutine::current());
+                        GRAVE.lock().unwrap_or_else(|e| e.into_inner()).push(coroutine::current());
                         let who = format!("c:{qn2}");
                         call("co.start", 0, 0);
                         if st2.contains(&stack_page()) {
                             call("stack.reuse", 0, 0);
                         }
-                        let bad = |what: String| sh2.fails.lock().unwrap().push(format!("stale-para: stale para reached a fresh coroutine: {who} {what}"));
+                        let bad = |what: String| sh2.fails.lock().unwrap_or_else(|e| e.into_inner()).push(format!("stale-para: stale para reached a fresh coroutine: {who} {what}"));
                         match kind {
                             0 | 1 => {
                                 // no time-out was ever set on this socket
@@ -566,7 +566,7 @@ fn run(spec: Spec) -> Vec<String> {
                             2 => {
                                 call("probe.park", 1, 0);
                                 let b = Blocker::current();
-                                *b2.lock().unwrap() = Some(b.clone());
+                                *b2.lock().unwrap_or_else(|e| e.into_inner()) = Some(b.clone());
                                 r2.store(true, SeqCst);
                                 let r = b.park(Some(Duration::from_secs(5)));
                                 let code = match r {
@@ -604,7 +604,7 @@ fn run(spec: Spec) -> Vec<String> {
                     let _ = sender.send_to(b"x", addr);
                 }
                 2 => {
-                    if let Some(b) = blk.lock().unwrap().as_ref() {
+                    if let Some(b) = blk.lock().unwrap_or_else(|e| e.into_inner()).as_ref() {
                         b.unpark();
                     }
                 }
@@ -614,7 +614,7 @@ fn run(spec: Spec) -> Vec<String> {
             if h.join().is_err() {
                 fail(format!("fresh-panic: the probing coroutine {qname} saw a cancellation or error nobody requested: it panicked"));
             }
-            GRAVE.lock().unwrap().push(co);
+            GRAVE.lock().unwrap_or_else(|e| e.into_inner()).push(co);
         }
         may::config().set_pool_capacity(2);
     }
@@ -623,13 +623,13 @@ fn run(spec: Spec) -> Vec<String> {
     // give up only after 5 s, a value that is still not dropped then is reported below)
     let t_acc = Instant::now();
     loop {
-        let pending = REG.lock().unwrap().as_ref().map(|r| r.values().filter(|i| i.drops == 0).count()).unwrap_or(0);
+        let pending = REG.lock().unwrap_or_else(|e| e.into_inner()).as_ref().map(|r| r.values().filter(|i| i.drops == 0).count()).unwrap_or(0);
         if pending == 0 || t_acc.elapsed() > Duration::from_secs(5) {
             break;
         }
         std::thread::sleep(Duration::from_micros(200));
     }
-    if let Some(r) = REG.lock().unwrap().as_ref() {
+    if let Some(r) = REG.lock().unwrap_or_else(|e| e.into_inner()).as_ref() {
         let mut per: HashMap<(String, usize), usize> = HashMap::new();
         for (id, i) in r.iter() {
             *per.entry((i.ctx.clone(), i.key)).or_insert(0) += 1;
@@ -644,8 +644,8 @@ fn run(spec: Spec) -> Vec<String> {
         }
     }
     let _ = accessed;
-    *REG.lock().unwrap() = None;
-    let f = sh.fails.lock().unwrap().clone();
+    *REG.lock().unwrap_or_else(|e| e.into_inner()) = None;
+    let f = sh.fails.lock().unwrap_or_else(|e| e.into_inner()).clone();
     f
 }
 
